@@ -353,3 +353,6 @@ def run(ctx):
     check_states(ctx, 6)
     # "returns work intact": operators of a container that is writing out can only go back to PENDING (C02#1: the table)
     c02.check_table(Renumber(ctx, {1: 6}))
+    # "a valid request is carried out": every Suspend of the tick's batch reaches the pool it names (C09#1)
+    from . import c09
+    c09.check_routing(Renumber(ctx, {1: 2}), 1)
